@@ -17,9 +17,12 @@ def plan(tier, seed):
     sizes = ["2,1,2", "0,3,1", "3,3"] if tier == "quick" else ["2,1,2", "0,3,1", "3,3", "1,0,0,2", "2,2,2", "4,3",
                                                                "1,1,1,1", "3,0,3"]
     for sz in sizes:
-        j = ch("C13", G, "h_to_pandas_mask", t, fun2, shape=dict(rows=sz), env=dict(VERIF_ROWS=sz))
-        j["name"] += "[%s]" % sz
-        jobs.append(j)
+        for hname in ("h_to_pandas_mask", "h_mask_then_reads"):
+            if hname == "h_mask_then_reads" and sz not in sizes[:2]:
+                continue
+            j = ch("C13", G, hname, t, fun2, shape=dict(rows=sz), env=dict(VERIF_ROWS=sz))
+            j["name"] += "[%s]" % sz
+            jobs.append(j)
     extra = dict(
         explanation="CrossHair (z3) over the real ParquetFile._column_filter on vector shims (row values, constants "
                     "and operators symbolic) against the documented semantics (flat list = AND, list of lists = OR of "
